@@ -59,12 +59,6 @@ Section Deep.
   Qed.
 
   (* ---------------------------------------------------------- converted exactly once *)
-  Definition once (fac : Z -> Z) (unit : option Z) (su : Z) (x : R) : R :=
-    match unit with
-    | None => x
-    | Some u => if (u =? su)%Z then x else x * (IZR (fac u) / IZR (fac su))
-    end.
-
   Local Ltac mulok := (intros; reflexivity).
 
   Theorem e_call_once p unit E :
@@ -215,4 +209,209 @@ Section Deep.
     - rewrite !(to_self_R erfR efac ue_int_conv) by (try mulok; auto using K_ue_int_conv). reflexivity.
     - rewrite !(to_self_R erfR efac pl_int_conv) by (try mulok; auto using K_pl_int_conv). reflexivity.
   Qed.
+  (* ---------------------------------------------------------- raw window setters *)
+  Lemma box_step_full tu t0 tw o :
+    t_apply RN (box_new RN tu t0 tw) o =
+      box_new RN tu (fst (box_spec_full tu (t0, tw) o)) (snd (box_spec_full tu (t0, tw) o)).
+  Proof.
+    destruct o as [pd|n v|dt u].
+    - apply (box_step erfR tu t0 tw (TSetParams pd)). exact I.
+    - destruct n; try (apply (box_step erfR tu t0 tw (TSetAttr _ v)); split; discriminate).
+      + cbn [box_spec_full fst snd t_apply]. rewrite !box_new_R. cbn [t_set]. f_equal; lra.
+      + cbn [box_spec_full fst snd t_apply]. rewrite !box_new_R. cbn [t_set]. f_equal; lra.
+    - apply (box_step erfR tu t0 tw (TMove dt u)). exact I.
+  Qed.
+  (* every history on a box profile, raw t_start / t_stop setters included, ends in the profile
+     constructed with the (t0, tw) the history asks for: no guard *)
+  Theorem box_update_full ops : forall tu t0 tw,
+    t_run RN ops (box_new RN tu t0 tw) =
+      box_new RN tu (fst (fold_left (box_spec_full tu) ops (t0, tw)))
+                    (snd (fold_left (box_spec_full tu) ops (t0, tw))).
+  Proof.
+    unfold t_run. induction ops as [|o r IH]; intros tu t0 tw.
+    - reflexivity.
+    - cbn [fold_left]. rewrite box_step_full, IH.
+      destruct (box_spec_full tu (t0, tw) o). reflexivity.
+  Qed.
+  (* for the Gaussian the guard par_op of the update theorem is needed: after the raw t_start
+     setter the object is one that no constructor call produces *)
+  Theorem gauss_raw_refuted :
+    exists tu t0 sg tol v, forall t0' sg',
+      t_apply RN (gauss_new RN tu t0 sg tol) (TSetAttr nTstart v) <> gauss_new RN tu t0' sg' tol.
+  Proof.
+    exists 0%Z, 0, 1, (1/2), (- gd 1 (1/2) - 1). intros t0' sg'.
+    rewrite !gauss_new_R. cbn [t_apply t_set]. intros H. injection H as H1 H2 H3.
+    subst sg'. lra.
+  Qed.
+
+  (* ---------------------------------------------------------- array call: outer product *)
+  Lemma nth_map3 {A B C D : Type} (f : A -> B -> C -> D) la lb lc i j k a b c :
+    nth_error la i = Some a -> nth_error lb j = Some b -> nth_error lc k = Some c ->
+    exists row col, nth_error (map (fun x => map (fun y => map (fun z => f x y z) lc) lb) la) i = Some row
+      /\ nth_error row j = Some col /\ nth_error col k = Some (f a b c).
+  Proof.
+    intros Ha Hb Hc.
+    exists (map (fun y => map (fun z => f a y z) lc) lb), (map (fun z => f a b z) lc).
+    repeat split.
+    - rewrite nth_error_map, Ha. reflexivity.
+    - rewrite nth_error_map, Hb. reflexivity.
+    - rewrite nth_error_map, Hc. reflexivity.
+  Qed.
+
+  Theorem ffm_array s l Phi0 ls le lt sp ep tp rd E t eu tu :
+    nth_error s l = Some (OM Phi0 ls le lt) ->
+    get_s s ls = Ok sp -> get_e s le = Ok ep -> get_t s lt = Ok tp ->
+    let sv := match rd with Some xs => map (fun x => s_call RN sp (fst x) (snd x)) xs | None => [1] end in
+    let ev := match E with Some xs => map (e_call RN ep eu) xs | None => [1] end in
+    let tv := match t with Some xs => map (t_call RN tp tu) xs | None => [1] end in
+    exists r, ffm_call_arr RN s l rd E t eu tu = Ok r
+      /\ length r = length sv
+      /\ (forall row, In row r -> length row = length ev /\ forall col, In col row -> length col = length tv)
+      /\ (forall i j k a b c, nth_error sv i = Some a -> nth_error ev j = Some b -> nth_error tv k = Some c ->
+            exists row col, nth_error r i = Some row /\ nth_error row j = Some col
+                            /\ nth_error col k = Some (Phi0 * a * b * c)).
+  Proof.
+    intros Hl Hs He Ht sv ev tv. unfold ffm_call_arr. rewrite Hl, Hs, He, Ht. cbn [bind].
+    fold sv. fold ev. fold tv.
+    eexists. split; [reflexivity|]. split; [apply map_length|]. split.
+    - intros row Hr. apply in_map_iff in Hr. destruct Hr as (a & <- & _). split; [apply map_length|].
+      intros col Hc. apply in_map_iff in Hc. destruct Hc as (b & <- & _). apply map_length.
+    - intros i j k a b c Ha Hb Hc.
+      exact (nth_map3 (fun x y z => ffm_flux RN Phi0 x y z) sv ev tv i j k a b c Ha Hb Hc).
+  Qed.
+
+  (* ---------------------------------------------------------- cdf *)
+  Lemma ratio_facts d : 0 < d ->
+    (forall a, 0 <= a -> 0 <= a / d) /\ (forall a, a <= d -> a / d <= 1)
+    /\ (forall a b, a <= b -> a / d <= b / d) /\ d / d = 1 /\ 0 / d = 0.
+  Proof.
+    intros Hd. assert (Hi : 0 < / d) by (apply Rinv_0_lt_compat; assumption).
+    repeat split; intros; unfold Rdiv.
+    - apply Rmult_le_pos; lra.
+    - replace 1 with (d * / d) by (field; lra). apply Rmult_le_compat_r; lra.
+    - apply Rmult_le_compat_r; lra.
+    - field; lra.
+    - ring.
+  Qed.
+
+  Lemma box_cdf_R tu ts te t :
+    box_cdf RN tu ts te None t =
+      if Rlt_dec te t then 1 else if Rle_dec ts t then (t - ts) / (te - ts) else 0.
+  Proof.
+    unfold box_cdf. rewrite (to_self_R erfR tfac box_cdf_conv) by (try mulok; auto using K_box_cdf_conv).
+    cbv zeta. destruct (box_cdf_m1 RN t te) eqn:H1.
+    - apply K_box_cdf_m1 in H1. destruct (Rlt_dec te t); [reflexivity|lra].
+    - destruct (Rlt_dec te t) as [Hc|Hc].
+      { assert (box_cdf_m1 RN t te = true) by (apply K_box_cdf_m1; lra). congruence. }
+      destruct (box_cdf_m0 RN t ts te) eqn:H0.
+      + apply K_box_cdf_m0 in H0. destruct (Rle_dec ts t); [apply K_box_cdf_val|lra].
+      + destruct (Rle_dec ts t); [|reflexivity].
+        assert (box_cdf_m0 RN t ts te = true) by (apply K_box_cdf_m0; lra). congruence.
+  Qed.
+
+  Theorem box_cdf_props tu ts te : ts < te ->
+    (forall t, 0 <= box_cdf RN tu ts te None t <= 1)
+    /\ (forall t t', t <= t' -> box_cdf RN tu ts te None t <= box_cdf RN tu ts te None t')
+    /\ box_cdf RN tu ts te None ts = 0
+    /\ box_cdf RN tu ts te None te = 1
+    /\ (forall t, ts <= t <= te ->
+          box_cdf RN tu ts te None t * t_total RN (Box tu ts te) = t_int RN (Box tu ts te) None ts t).
+  Proof.
+    intros Hw. destruct (ratio_facts (te - ts) ltac:(lra)) as (P0 & P1 & Pm & Pd & Pz).
+    repeat split; intros; rewrite ?box_cdf_R.
+    - destruct (Rlt_dec te t); [lra|]. destruct (Rle_dec ts t); [apply P0; lra|lra].
+    - destruct (Rlt_dec te t); [lra|]. destruct (Rle_dec ts t); [apply P1; lra|lra].
+    - destruct (Rlt_dec te t), (Rlt_dec te t'), (Rle_dec ts t), (Rle_dec ts t'); try lra;
+        try (apply P1; lra); try (apply P0; lra); try (apply Pm; lra).
+    - destruct (Rlt_dec te ts); [lra|]. destruct (Rle_dec ts ts); [|lra].
+      replace (ts - ts) with 0 by ring. exact Pz.
+    - destruct (Rlt_dec te te); [lra|]. destruct (Rle_dec ts te); [exact Pd|lra].
+    - destruct (Rlt_dec te t); [lra|]. destruct (Rle_dec ts t); [|lra].
+      rewrite t_total_spec, !(box_int_length erfR) by lra.
+      rewrite (Rmax_left ts ts), (Rmin_right te te), (Rmin_left t te) by lra.
+      rewrite !Rmax_right by lra. field. lra.
+  Qed.
 End Deep.
+
+Section GaussCdf.
+  Variable erfR : R -> R.
+  Notation RN := (RNum erfR).
+  Hypothesis erf_deriv : forall x, is_derive erfR x (2 / sqrt PI * exp (- (x * x))).
+
+  (* the antiderivative is strictly increasing (erf' > 0) *)
+  Lemma gauss_G_incr sg t0 a b : 0 < sg -> a < b -> gauss_G erfR sg t0 a < gauss_G erfR sg t0 b.
+  Proof.
+    intros Hs Hab.
+    assert (H := gauss_is_RInt_line erfR erf_deriv sg t0 a b Hs).
+    apply Rminus_lt_0. rewrite <- (is_RInt_unique _ _ _ _ H).
+    apply RInt_gt_0; [assumption| |].
+    - intros x _. unfold gauss_g. apply exp_pos.
+    - intros x _. apply gauss_g_cont. assumption.
+  Qed.
+  Lemma gauss_G_mono sg t0 a b : 0 < sg -> a <= b -> gauss_G erfR sg t0 a <= gauss_G erfR sg t0 b.
+  Proof.
+    intros Hs [Hab| ->]; [left; apply gauss_G_incr; assumption|right; reflexivity].
+  Qed.
+
+  Lemma gauss_total_R tu ts te sg tol : ts <= te ->
+    t_total RN (Gauss tu ts te sg tol) = gauss_G erfR sg ((ts + te) / 2) te - gauss_G erfR sg ((ts + te) / 2) ts.
+  Proof.
+    intros Hw. rewrite t_total_spec, gauss_int_R.
+    rewrite (Rmax_left te ts), (Rmin_left te te), (Rmax_left ts ts), (Rmin_left ts te) by lra. reflexivity.
+  Qed.
+
+  Lemma gauss_cdf_R tu ts te sg tol t : ts <= te ->
+    gauss_cdf RN tu ts te sg tol None t =
+      if Rlt_dec te t then 1
+      else if Rle_dec ts t
+           then (gauss_G erfR sg ((ts + te) / 2) t - gauss_G erfR sg ((ts + te) / 2) ts)
+                / (gauss_G erfR sg ((ts + te) / 2) te - gauss_G erfR sg ((ts + te) / 2) ts)
+           else 0.
+  Proof.
+    intros Hw. unfold gauss_cdf.
+    rewrite (to_self_R erfR tfac ga_cdf_conv) by (try (intros; reflexivity); auto using K_ga_cdf_conv).
+    cbv zeta. destruct (ga_cdf_m1 RN t te) eqn:H1.
+    - apply K_ga_cdf_m1 in H1. destruct (Rlt_dec te t); [reflexivity|lra].
+    - destruct (Rlt_dec te t) as [Hc|Hc].
+      { assert (ga_cdf_m1 RN t te = true) by (apply K_ga_cdf_m1; lra). congruence. }
+      destruct (ga_cdf_m0 RN t ts te) eqn:H0.
+      + apply K_ga_cdf_m0 in H0. destruct (Rle_dec ts t); [|lra].
+        rewrite K_ga_cdf_val, gauss_total_R, gauss_int_R by assumption.
+        rewrite (Rmax_left t ts), (Rmin_left t te), (Rmax_left ts ts), (Rmin_left ts te) by lra. reflexivity.
+      + destruct (Rle_dec ts t); [|reflexivity].
+        assert (ga_cdf_m0 RN t ts te = true) by (apply K_ga_cdf_m0; lra). congruence.
+  Qed.
+
+  Theorem gauss_cdf_props tu ts te sg tol : 0 < sg -> ts < te ->
+    0 < t_total RN (Gauss tu ts te sg tol)
+    /\ (forall t, 0 <= gauss_cdf RN tu ts te sg tol None t <= 1)
+    /\ (forall t t', t <= t' -> gauss_cdf RN tu ts te sg tol None t <= gauss_cdf RN tu ts te sg tol None t')
+    /\ gauss_cdf RN tu ts te sg tol None ts = 0
+    /\ gauss_cdf RN tu ts te sg tol None te = 1
+    /\ (forall t, ts <= t <= te ->
+          gauss_cdf RN tu ts te sg tol None t * t_total RN (Gauss tu ts te sg tol)
+            = t_int RN (Gauss tu ts te sg tol) None ts t).
+  Proof.
+    intros Hs Hw. set (G := gauss_G erfR sg ((ts + te) / 2)).
+    assert (Hd : 0 < G te - G ts) by (apply Rlt_Rminus; apply gauss_G_incr; assumption).
+    assert (Gm : forall a b, a <= b -> G a <= G b) by (intros; apply gauss_G_mono; assumption).
+    destruct (ratio_facts (G te - G ts) Hd) as (P0 & P1 & Pm & Pd & Pz).
+    split; [rewrite gauss_total_R by lra; exact Hd|].
+    repeat split; intros; rewrite ?gauss_cdf_R by lra; fold G.
+    - destruct (Rlt_dec te t); [lra|]. destruct (Rle_dec ts t); [|lra].
+      apply P0. generalize (Gm ts t ltac:(lra)). lra.
+    - destruct (Rlt_dec te t); [lra|]. destruct (Rle_dec ts t); [|lra].
+      apply P1. generalize (Gm t te ltac:(lra)). lra.
+    - destruct (Rlt_dec te t), (Rlt_dec te t'), (Rle_dec ts t), (Rle_dec ts t'); try lra.
+      + apply P1. generalize (Gm t te ltac:(lra)). lra.
+      + apply Pm. generalize (Gm t t' ltac:(lra)). lra.
+      + apply P0. generalize (Gm ts t' ltac:(lra)). lra.
+    - destruct (Rlt_dec te ts); [lra|]. destruct (Rle_dec ts ts); [|lra].
+      replace (G ts - G ts) with 0 by ring. exact Pz.
+    - destruct (Rlt_dec te te); [lra|]. destruct (Rle_dec ts te); [exact Pd|lra].
+    - destruct (Rlt_dec te t); [lra|]. destruct (Rle_dec ts t); [|lra].
+      rewrite gauss_total_R, gauss_int_R by lra. fold G.
+      rewrite (Rmax_left t ts), (Rmin_left t te), (Rmax_left ts ts), (Rmin_left ts te) by lra.
+      field. lra.
+  Qed.
+End GaussCdf.
